@@ -39,7 +39,7 @@ CHECKS = {
   ref="C06"),
  "C07": dict(
   text="Lean 4 theorems by structural induction over numeric expression trees of any depth (int/float literals, typed variables, unary minus, parentheses, all 13 arithmetic/comparison operators): the checker's type, the IR type assigned by lowering, and the Rust type of the shape the emitter produces (helper call / method / infix with the planned conversions) all equal the documented table; the emitter's IR-based exponent classification equals the checker's AST-based one; `x: int = a / b` is always rejected; an accepted annotated binding never changes numeric kind. The finite policy table is proved entry by entry and also compared exhaustively with the real functions.",
-  note="Rust typing of emitted shapes is a model (helper signatures, i64::pow, f64::powf); rustc is not run here. Tie: real parser -> TypeChecker expr_types, AstLowering IR types, determine_binop_plan, on exhaustive depth<=2 grids + random depth<=6; binding positions let/return/compound proved+tied, `argument` is a recorded finding (arguments are not type-checked).",
+  note="Rust typing of emitted shapes is a model (helper signatures, i64::pow, f64::powf); rustc is not run here. Tie: real parser -> TypeChecker expr_types, AstLowering IR types, determine_binop_plan, on exhaustive depth<=2 grids + random depth<=6; binding positions let/return/compound proved+tied; `argument` is tied since the fix: commit that made the checker compare call arguments with parameter types.",
   technique="Lean 4 proof (structural induction over expression trees; finite table by cases) + correspondence with checker/lowering/emit-plan + documented-table oracle",
   ref="C07"),
  "C08": dict(
@@ -88,7 +88,7 @@ CHECKS = {
   technique="Lean 4 proof (list induction over the runner loop) + correspondence with the real runner + ground-truth oracle",
   ref="C16"),
  "C17": dict(
-  text="Lean 4 theorems about the model of the newtype rewrite (select_newtype_checked_ctor, the `T(x)` call rewrite, the current_impl_type exemption) and a run-time semantics in which a hook is a partial function: `construction_validated_partial` — by structural induction over expressions of any shape and depth, every T value a lowered expression can produce outside T's own methods (inside lists, tuples, fields, Option/Result payloads, nested constructions) came out of T's hook; `rejected_argument_stops` — with a rejected argument the construction stops with the validation failure naming type and hook; failures propagate; the exemption is exactly `inside T's own methods`; the selected hook is always a declared static well-shaped method, a well-shaped from_underlying always wins, a single from_* is selected. The full statement is false (`alias_bypasses`, kernel-checked witness: a type name used as a function value) — recorded finding, replayed on the compiled program.",
+  text="Lean 4 theorems about the model of the newtype rewrite (select_newtype_checked_ctor, the `T(x)` call rewrite, the current_impl_type exemption) and a run-time semantics in which a hook is a partial function: `construction_validated_partial` — by structural induction over expressions of any shape and depth, every T value a lowered expression can produce outside T's own methods (inside lists, tuples, fields, Option/Result payloads, nested constructions) came out of T's hook; `rejected_argument_stops` — with a rejected argument the construction stops with the validation failure naming type and hook; failures propagate; the exemption is exactly `inside T's own methods`; the selected hook is always a declared static well-shaped method, a well-shaped from_underlying always wins, a single from_* is selected. The full statement is false (`alias_bypasses`, kernel-checked witness: a type name used as a function value) — recorded finding, replayed on the compiled program. Two fix: commits (hook over generic underlying types; call arguments are now type-checked, so mixing newtypes in an argument is rejected by `incan --check`).",
   note="Partial: sites of the shape T(x); hooks are deterministic partial functions; nominal typing of the checker is tied by the oracle only (model: name equality). Tie: 180+ generated programs per run compiled with rustc and executed; outcome (printed value or panic text) compared with the model.",
   technique="Lean 4 proof (structural induction with a value invariant; selection lemmas; counter-example witness) + compiled-program correspondence + hook-enforcement oracle",
   ref="C17"),
